@@ -510,3 +510,46 @@ class Rng:
             h = [0, 1, 2, 0x7FFFFFFF, 0x80000000, 0x80000001, 0xFFFFFFFE, 0xFFFFFFFF, 0xFFFFFFFD, 3]
             return (h[self.below(10)] << 32) | h[self.below(10)]
         return self.next()
+
+
+def confirm_case(wd, module, cfg, cmd_fn, write_cases, cases, ci, env=None, post=None, tag='confirm'):
+    """Re-run a rejected case before it is reported.  First exactly the case alone in a fresh process; if that run is
+    accepted, the whole process history up to and including the case (a failure that needs earlier calls - a cache, a
+    static, a global runtime setting - is deterministic but invisible in isolation).
+    cmd_fn(cases_path, trace_path) -> argv;  write_cases(path, cases);  ci is the 1-based index of the case.
+    post(trace_path) optionally rewrites the trace (e.g. adds fields the trace spec expects).
+    Returns 'single', 'history' or None (not reproduced)."""
+    c2 = os.path.join(wd, tag + '_cases.txt'); t2 = os.path.join(wd, tag + '.ndjson')
+    for mode, sub in (('single', [cases[ci - 1]]), ('history', cases[:ci])):
+        write_cases(c2, sub)
+        if os.path.exists(t2):
+            os.remove(t2)
+        sh(cmd_fn(c2, t2), timeout=1800)
+        if not os.path.exists(t2):
+            continue
+        if post:
+            post(t2)
+        want = 1 if mode == 'single' else ci
+        keep = []
+        for ln in open(t2).read().split('\n'):
+            if not ln.strip():
+                continue
+            try:
+                j = json.loads(ln)
+            except Exception:
+                continue
+            if j.get('ci') == want:
+                keep.append(ln)
+        if not keep:
+            continue
+        t3 = os.path.join(wd, tag + '_last.ndjson')
+        open(t3, 'w').write('\n'.join(keep) + '\n')
+        v = validate_trace(wd, module, cfg, t3, nsplit=1, env=env)
+        if v['rejected']:
+            return mode
+        if mode == 'single' and ci == 1:
+            break
+    return None
+
+
+HIST = ' (history-dependent: correct in a fresh process, wrong after the preceding calls of the same process)'
